@@ -37,6 +37,18 @@ func propC14(c *Ctx) propInfo {
 	c.externalEnvelope()
 	c.payloadCodecs()
 	c.bocHeaderAgreement() // the payload handed to the network is serialised through serializeBoc
+	// the wallet's own codecs and message builders contain no reachable crash construct (an empty
+	// action list must write nothing, not index its first element)
+	{
+		roots := c.methodsNamed([]string{"MarshalTLB", "UnmarshalTLB", "createSignedMsgBodyCell", "RawMessages"}, "wallet")
+		for _, n := range []string{"ExtractRawMessages", "DecodeMessageV5", "DecodeMessageV4", "DecodeMessageV3", "DecodeHighloadV2Message", "VerifySignature", "MessageV5VerifySignature"} {
+			if f := c.fn("wallet", n); f != nil {
+				roots = append(roots, f)
+			}
+		}
+		c.panicFree(e1cfg{roots: roots, pkgs: map[string]bool{"wallet": true}, traverse: map[string]bool{"wallet": true}, maxDepth: c.e1Depth(), exc: excC14E1, excP5: map[string]excEntry{}})
+	}
+	c.nilContradictions("E1.P8-nil-contradiction", "wallet")
 	return propInfo{
 		explanation: "Static structural clauses of C14: (1) verifiers return nil only on the true edge of ed25519.Verify; VerifySignature delegates every success to them. (2) sign-what-you-send: in every createSignedMsgBodyCell the signature is Cell.Sign(privateKey parameter) of exactly the cell the body was marshalled into, computed after the last content write, and what is returned is that cell plus the signature (v3/v4/highload: SignedMsgBody{Sign, Message: same cell}; v5: WriteBytes(signature) as the last write); Cell.Sign signs the representation hash. (3) verify-what-was-signed: SignedMsgBody.Verify hashes body.Message and checks body.Sign; MessageV5VerifySignature hashes all bits except the last 512 plus every ref, and takes the last 512 bits as the signature. (4) E15 body literals: in each version the body literal takes sub-wallet/wallet id from the wallet, ValidUntil from msgConfig.ValidUntil.Unix(), Seqno from msgConfig.Seqno and the messages from internalMessages; the three WalletV5ID literals of v5beta agree. (5) layouts: E3 layouts of the message structs equal spec/tlb_layouts.spec; v5 writer struct + 512-bit signature equals the reader's SignedExternal alternative field by field, and the 32-bit prefix written is the alternative's tag. (6) limits: maxMessageNumber constants agree with the payload encoders' guards and RawSendV2 refuses before signing. (7) version -> decoder / verifier tables. (8) external envelope (ext_in_msg_info, dest = address, body in a ref). (9) payload codecs: E5 event traces of PayloadV1toV4 / W5Actions / PayloadHighload encoder and decoder agree. NOT decided: unforgeability, that decoding returns equal values (value-level), the order of highload messages through the dictionary.",
 		assumptions: []string{"ed25519 behaves as documented"},
@@ -727,4 +739,10 @@ func (c *Ctx) sendLimitGuard(R string) {
 		c2 := callOf(b.Y)
 		return c2 != nil && c2.Call.IsInvoke() && c2.Call.Method.Name() == "maxMessageNumber" && strings.Join(leaves(b.X), ",") == "#4" && b.Op.String() == ">"
 	}, kind: "notbool"})
+}
+
+var excC14E1 = map[string]excEntry{
+	"(*wallet.walletV1V2).createSignedMsgBodyCell P1 panic _":                     {"unimplemented stub (panic(\"implement me\")): v1/v2 wallets are supported for address derivation only and are outside C14's 'supported versions for sending' (recorded as an observation in DESIGN.md)", nil},
+	"(*wallet.SignedMsgBody).Verify P7 call crypto/ed25519.Verify len(arg0)==32":  {"the key is the API caller's ed25519.PublicKey, not data read from a message; a key of another length is a programming error on the caller's side", nil},
+	"wallet.MessageV5VerifySignature P7 call crypto/ed25519.Verify len(arg0)==32": {"same: caller-supplied ed25519.PublicKey", nil},
 }
